@@ -23,6 +23,7 @@ NaN elsewhere, nothing else.
 from __future__ import annotations
 
 import itertools
+import json
 import math
 from fractions import Fraction
 
@@ -255,7 +256,7 @@ def gen_scene(rng, big=False, crowded=False, empty=None, border_band=False, elon
             frames[i] = blank()
     scale = rng.choice([1.0, 1.0, 0.5, 0.75, 2.0, 0.625]) if not crowded else rng.choice([0.5, 0.75, 2.0, 0.625])
     effs = [rng.choice([1.0, 1.0, 0.5, 0.8, 0.625, 1.25]) for _ in range(B)]
-    return {
+    sc = {
         "cs": cs, "ps": ps, "n_nodes": n_nodes, "edges": edges, "Hin": Hin, "Win": Win,
         "sigma_c": sigma_c, "sigma_p": sigma_p, "frames": frames, "scale": scale, "effs": effs,
         "refinement": rng.choice([None, None, "integral", "integral", "local"]), "patch": rng.choice([3, 5]),
@@ -263,6 +264,7 @@ def gen_scene(rng, big=False, crowded=False, empty=None, border_band=False, elon
         "ratio": ratio, "weight": rng.choice([1.0, 1.0, 0.5]), "min_line": rng.choice([0.25, 0.25, 0.1, 0.4]),
         "min_peaks": 0, "threshold": rng.choice([0.2, 0.2, 0.1, 0.3]), **naming(rng, n_nodes),
     }
+    return admit(sc)
 
 
 def max_edge_length(sc):
@@ -281,6 +283,7 @@ def scene_tags(sc, b):
     srt = sc.get("names") is not None and sorted((sc["names"][u], sc["names"][v]) for u, v in sc["edges"]) == \
         [(sc["names"][u], sc["names"][v]) for u, v in sc["edges"]]
     return ["scorer_via_from_config" if sc.get("via_config") else "scorer_via_constructor",
+            "admission_dropped_animals" if sc.get("admission_dropped") else "admission_kept_all",
             "edge_listing_alphabetical" if srt or sc.get("names") is None else "edge_listing_not_alphabetical",
             f"n_points={sc['n_points']}", f"weight={sc['weight']}", f"ratio={sc['ratio']}", f"min_line={sc['min_line']}",
             f"threshold={sc['threshold']}", f"eff={sc['effs'][b]}",
@@ -921,6 +924,29 @@ def only_missing_edges(sc, b, pred, bad_types):
     return True
 
 
+def only_regrouped(sc, b, pred, nodes):
+    """effect part of F-C03c: every returned keypoint is a labelled visible keypoint of that node type (within
+    tolerance; nothing invented or displaced — only the grouping differs) and every labelled group that is not returned
+    exactly contains one of the node types `nodes` of the affected edge type"""
+    s_e = sc["scale"] * float(_f32(sc["effs"][b]))
+    tol = (sc["cs"] / 2.0) / s_e * (1 + 1e-4) + 1e-3
+    fr = sc["frames"][b]
+    for inst in pred:
+        for k, p in enumerate(inst):
+            if p is None:
+                continue
+            if p[0] == "half-nan" or not any(an[k] is not None and abs(p[0] - float(an[k][0]) / s_e) <= tol
+                                             and abs(p[1] - float(an[k][1]) / s_e) <= tol for an in fr):
+                return False
+    for g in expected_groups(sc, b):
+        exact = any({k for k, p in enumerate(inst) if p is not None} == set(g) and
+                    all(abs(inst[k][0] - float(g[k][0])) <= tol and abs(inst[k][1] - float(g[k][1])) <= tol for k in g)
+                    for inst in pred)
+        if not exact and not (set(g) & nodes):
+            return False
+    return True
+
+
 def signatures(sc, b):
     """structural predicates of a (shrunk) failing case, matched against known findings.  Each is *geometric*
     (computed from the labels of the scene, not from the scores of the tree under test) plus the narrow *effect*
@@ -946,6 +972,18 @@ def signatures(sc, b):
         return (math.floor(float(p[0]) / cs + 0.5), math.floor(float(p[1]) / cs + 0.5))
     coinc = [(u, v) for (u, v) in sc["edges"]
              if any(an[u] is not None and an[v] is not None and cell(an[u]) == cell(an[v]) for an in fr)]
+    # F-C03c: the geometry-only predicted scores violate the exchange clause of H2 for a true pair against an orphan
+    # source and an orphan destination peak (two mediocre candidates out-score the true pair plus the orphan pair)
+    viol = {k for (k, cl) in (predicted_H2_all(sc, fr, ADMIT_MARGIN) if fr else []) if cl == "exchange_orphans"}
+    if viol:
+        try:
+            res, _ = run_impl(sc)
+            if res[0] == "ok":
+                nodes = {x for k in viol for x in sc["edges"][k]}
+                if only_regrouped(sc, b, canon_pred(res[1]["pred_instance_peaks"][b]), nodes):
+                    sigs.append("predicted_exchange_violation_with_orphans")
+        except Exception:
+            pass
     if forced or coinc:
         try:
             res, _ = run_impl(sc)
@@ -958,6 +996,110 @@ def signatures(sc, b):
         except Exception:
             pass
     return sorted(set(sigs))
+
+
+def predicted_scores(sc, fr):
+    """Geometry-only prediction of the line score of EVERY connection candidate of a frame (no implementation code):
+    peaks = visible keypoints snapped to the confidence-map grid, sampling by `round(point / paf_stride)` clipped to
+    the PAF grid, PAF at a grid node = Σ over the animals that have the limb of `exp(-d^4 / 2σ²)·unit(limb)`, mean of
+    the projections on the candidate's direction, plus the distance penalty.
+    Returns {edge index: {(animal of src, animal of dst): score}}."""
+    cs, ps, sig = sc["cs"], sc["ps"], sc["sigma_p"]
+    nx, ny = -(-sc["Win"] // ps), -(-sc["Hin"] // ps)
+    n = sc["n_points"]
+    ml = max_edge_length(sc)
+
+    def snap(p):
+        return (math.floor(float(p[0]) / cs + 0.5) * cs, math.floor(float(p[1]) / cs + 0.5) * cs)
+    out = {}
+    for k, (u, v) in enumerate(sc["edges"]):
+        limbs = []
+        for an in fr:
+            if an[u] is not None and an[v] is not None:
+                A = (float(an[u][0]), float(an[u][1])); B = (float(an[v][0]), float(an[v][1]))
+                L = math.hypot(B[0] - A[0], B[1] - A[1])
+                if L > 0:
+                    limbs.append((A, B, ((B[0] - A[0]) / L, (B[1] - A[1]) / L)))
+        tab = {}
+        for i, a in enumerate(fr):
+            if a[u] is None:
+                continue
+            for j, b in enumerate(fr):
+                if b[v] is None:
+                    continue
+                P, Q = snap(a[u]), snap(b[v])
+                dx, dy = Q[0] - P[0], Q[1] - P[1]
+                L = math.hypot(dx, dy)
+                if L == 0:
+                    tab[(i, j)] = float("nan")
+                    continue
+                tot = 0.0
+                for t in range(n):
+                    tt = t / (n - 1) if n > 1 else 0.0
+                    gx = min(max(round((P[0] + dx * tt) / ps), 0), nx - 1) * ps
+                    gy = min(max(round((P[1] + dy * tt) / ps), 0), ny - 1) * ps
+                    for (A, B, un) in limbs:
+                        d = seg_dist((gx, gy), A, B)
+                        tot += math.exp(-d ** 4 / (2.0 * sig * sig)) * (un[0] * dx + un[1] * dy) / L
+                tab[(i, j)] = tot / n + min(ml / L - 1.0, 0.0) * sc["weight"]
+        out[k] = tab
+    return out
+
+
+def predicted_H2_all(sc, fr, margin):
+    """all violations (edge index, clause) of H2 (`Separated`) on the geometry-only predicted scores, each clause
+    required with the safety margin `margin`"""
+    ml_ = sc["min_line"]
+    out = []
+    for k, tab in predicted_scores(sc, fr).items():
+        if any(v != v for v in tab.values()):
+            out.append((k, "nan"))
+            continue
+        true = {ij for ij in tab if ij[0] == ij[1]}
+        rows_t = {i for i, _ in true}
+        cols_t = {j for _, j in true}
+        for (i, j), v in tab.items():
+            if (i, j) in true:
+                if v < ml_ + margin:
+                    out.append((k, "true_low"))
+            elif i not in rows_t and j not in cols_t and v >= ml_ - margin:
+                out.append((k, "orphan_high"))
+        for (i, j) in true:
+            t = tab[(i, j)]
+            for (i2, j2), v in tab.items():
+                if (i2, j2) == (i, j):
+                    continue
+                if i2 == i or j2 == j:
+                    if t - v <= margin:
+                        out.append((k, "dominance"))
+                elif t + v - tab[(i, j2)] - tab[(i2, j)] <= margin:
+                    out.append((k, "exchange_orphans" if i2 not in rows_t and j2 not in cols_t else "exchange"))
+    return out
+
+
+def predicted_H2(sc, fr, margin):
+    """H2 evaluated on the geometry-only predicted scores with a safety margin: None when it holds, else the first
+    violation (edge index, clause).  This is the admission test of the generators: the property is claimed on the
+    region where ideal maps separate the candidates; the complement is sampled through the known-finding families."""
+    v = predicted_H2_all(sc, fr, margin)
+    return v[0] if v else None
+
+
+ADMIT_MARGIN = 0.1
+
+
+def admit(sc):
+    """Admission test of the generated scenes: animals are dropped from a frame (last first) until the geometry-only
+    prediction says H2 holds with margin `ADMIT_MARGIN` for every edge type (`predicted_H2`).  The property is claimed
+    on this region; its complement (assignment findings F-C03, F-C03b, F-C03c) is sampled by the excluded-region
+    families."""
+    dropped = 0
+    for fr in sc["frames"]:
+        while fr and predicted_H2(sc, fr, ADMIT_MARGIN) is not None:
+            fr.pop()
+            dropped += 1
+    sc["admission_dropped"] = dropped
+    return sc
 
 
 def expected_true_score(sc, A, B, refined):
@@ -1057,9 +1199,33 @@ def gen_coarse_family(rng):
                         for val in (math.floor(c / cs + 0.5) * cs, c):
                             if abs((val / ps) % 1 - 0.5) < 0.03:
                                 good = False
-        if good:
+        if good and predicted_H2(sc, sc["frames"][0], ADMIT_MARGIN) is None:
+            sc["admission_dropped"] = 0
             return sc
     raise RuntimeError("gen_coarse_family: no admissible scene in 200 attempts")
+
+
+def gen_collinear_orphans_family(rng, witness):
+    """F-C03c region: rigid shifts of the witness (an intact animal with an orphan source peak and an orphan destination
+    peak of one edge type roughly in line with its limb, weak distance penalty) with ≤ ½ px jitter of the two partial
+    animals"""
+    sc = unfrac_json(json.loads(json.dumps(witness)))
+    dx, dy = Fraction(rng.randrange(-32, 33), 4), Fraction(rng.randrange(-32, 33), 4)
+    cs = sc["cs"]
+
+    def mv(p, jit):
+        if p is None:
+            return None
+        x = p[0] + dx + (Fraction(rng.randrange(-2, 3), 4) if jit else 0)
+        y = p[1] + dy + (Fraction(rng.randrange(-2, 3), 4) if jit else 0)
+        if (x / cs) % 1 == Fraction(1, 2):
+            x += Fraction(1, 4)
+        if (y / cs) % 1 == Fraction(1, 2):
+            y += Fraction(1, 4)
+        return (x, y)
+    sc["frames"] = [[[mv(p, ai < 2) for p in an] for ai, an in enumerate(fr)] for fr in sc["frames"]]
+    sc["refinement"] = rng.choice([None, "local"])     # snapped peaks: the geometry-only prediction is exact
+    return sc
 
 
 def gen_coincident_family(rng):
@@ -1372,8 +1538,11 @@ def main(chk: Check):
 
     # known findings F-C03 / F-C03b: replay the witnesses, then sample the excluded regions (search, not coverage)
     excl = {}
+    wit_c = next((f for f in chk.known if f["id"] == "F-C03c"), None)
     for fid, gen, n_excl, what in (
             ("F-C03", gen_forced_family, chk.n(12, 120), "orphan pair vs long animal"),
+            ("F-C03c", (lambda r: gen_collinear_orphans_family(r, wit_c["witness"])), chk.n(6, 60) if wit_c else 0,
+             "orphan source and destination in line with an intact limb"),
             ("F-C03b", gen_coincident_family, chk.n(6, 60), "coincident connected pair next to an intact animal")):
         wit = next((f for f in chk.known if f["id"] == fid), None)
         if wit is not None:
